@@ -150,6 +150,12 @@ impl Encode for VarInt {
 pub mod payload {
     use super::*;
 
+    /// Maximum payload size accepted by [`decode`], in bytes.
+    ///
+    /// Frames are buffered in the peer's inbox until they are complete, so a payload
+    /// larger than the inbox can never be decoded in the first place.
+    pub const MAX_SIZE: usize = wire::protocol::MAX_INBOX_SIZE;
+
     /// Encode varint-prefixed data payload.
     pub fn encode<W: io::Write + ?Sized>(payload: &[u8], writer: &mut W) -> io::Result<usize> {
         let mut n = 0;
@@ -168,7 +174,18 @@ pub mod payload {
     /// Decode varint-prefixed data payload.
     pub fn decode<R: io::Read + ?Sized>(reader: &mut R) -> Result<Vec<u8>, wire::Error> {
         let size = VarInt::decode(reader)?;
-        let mut data = vec![0; *size as usize];
+        // Nb. The size is controlled by the remote peer and can be as large as 2^62 - 1,
+        // make sure it is sane before allocating anything.
+        let size = match usize::try_from(*size) {
+            Ok(size) if size <= MAX_SIZE => size,
+            _ => {
+                return Err(wire::Error::InvalidSize {
+                    expected: MAX_SIZE,
+                    actual: *size as usize,
+                })
+            }
+        };
+        let mut data = vec![0; size];
         reader.read_exact(&mut data[..])?;
 
         Ok(data)
